@@ -88,12 +88,19 @@ func checkImage(engine string, cfg Config, roots []cid.Cid, stored []Blk, atMost
 	}
 	if !exact {
 		// stored ⊆ sections ⊆ atMost (as multisets of cid|data)
+		// blocks are identified by their key: the whole CID when requested, the multihash otherwise
+		key := func(c cid.Cid) string {
+			if cfg.WholeCIDs {
+				return cidHex(c)
+			}
+			return string(c.Hash())
+		}
 		cnt := map[string]int{}
 		for _, s := range p.Sections {
-			cnt[cidHex(s.Cid)]++
+			cnt[key(s.Cid)]++
 		}
 		for _, b := range stored {
-			if cnt[cidHex(b.Cid)] == 0 {
+			if cnt[key(b.Cid)] == 0 {
 				return rep, viol(engine+"/continuation-malformed/missing-block", "final archive lacks block %s that had to be in it", b.Spec)
 			}
 		}
